@@ -11,10 +11,27 @@ Correspondence, both directions, whole files:
   (iii) which records a file has (format, Extra Bytes VLR or none, record length of the header in every relation to the two):
        the model of LasHeader.read_from (translated block resolve_record) against laspy, errors included.
 In (i) the file is written in every way laspy offers: LasData.write, LasWriter in chunks, laspy.convert from another
-(version, format) then write, write + appender. In (ii) records may carry undocumented bytes beyond what the VLR describes.
+(version, format) then write, write + appender; to a BytesIO, a path, an open file; the extra dimensions are added through
+LasHeader / LasData .add_extra_dim(s), all first or each followed by the assignment of its values, their scales / offsets come
+from caller-owned objects (fresh arrays, ONE buffer re-used for every dimension and overwritten after each call, views, float32 /
+int64 arrays, lists, tuples, one ExtraBytesParams object re-bound), the arrays the values came from are overwritten after the
+assignment, the caller's header is modified after it was handed to a writer.
+In (ii) records may carry undocumented bytes beyond what the VLR describes, the file may have bytes of another producer after
+its last point record and between the points and the EVLRs.
+  (iv) sessions: a file built by the specification encoder (bytes after the last point: padding, internal waveform data packets;
+       unused bytes before the EVLRs; EVLRs; extra header / VLR-area bytes; undocumented bytes per record) goes through a route
+       of laspy that writes records into or next to existing ones — LasAppender (laspy.open(mode="a") / the class; BytesIO, path,
+       file object; several append_points calls, empty ones; ScaleAware / Packed records), laspy.mmap edits (indexed, sliced,
+       whole columns), reader -> writer copy in chunks, read + edit + write — and the specification decoder must find, at
+       offset_to_point_data + i * record_length, the file's records followed by the values assigned to the new ones, the header
+       block / VLRs / EVLRs it had. The model of the in-place routes (Model/RecordPlace.v: append_session over append_start
+       translated from LasAppender.__init__, edit_record) is run on the same files: same bytes in the record range.
 Search: the same checks with a second, pure-Python transcription of the tables (struct / int.from_bytes) instead of the
 model, so that a failing input is found without the model."""
+import atexit
 import io
+import os
+import shutil
 import uuid as uuidmod
 from datetime import date, timedelta
 
@@ -34,6 +51,12 @@ ASSUMPTIONS = [
     "assigned before the conversion (value-changing conversions are C12's)",
     "no_data / min / max of an extra-bytes descriptor are not reachable through ExtraBytesParams: only checked not to disturb",
     "scaled extra dimensions are assigned through the scaled view with binary scales, so that the stored integer is exact (rounding is C11/C12)",
+    "append sessions on a file with bytes of another producer behind its points: the appended records overwrite those bytes (laspy has "
+    "no other place for them); what is left of them behind the new end of the records, and the fate of internal waveform data packets "
+    "(overwritten, 'Start of Waveform Data Packet Record' not updated), is not judged here: only header, VLRs, EVLRs and point records are",
+    "header.scales / header.offsets / VLR.record_data are plain attributes: the caller's object is kept by reference (Python attribute "
+    "semantics), so the caller is not made to modify those after the assignment; ExtraBytesParams copies its scales / offsets "
+    "(np.array) and the caller is made to re-use them",
 ]
 
 # ---------------------------------------------------------------------------------------------------
@@ -256,6 +279,11 @@ class PyRef:
             return [n for n, _ in py_leaves(fmt, ebs)]
         if op == "psize":
             return py_size(fmt, ebs)
+        if op == "dec_at":
+            off, ps, n, f = r[3], r[4], r[5], r[6]
+            if ps != py_size(fmt, ebs) or off + n * ps > len(f):
+                return ("err", "EShort")
+            return [py_dec_record(fmt, ebs, f[off + i * ps:off + (i + 1) * ps]) for i in range(n)]
         if op in ("dec", "gdec"):
             sz, data = py_size(fmt, ebs), r[3]
             if len(data) % sz:
@@ -315,6 +343,10 @@ class ModelRef:
                 lines.append(f"{op} {r[1]} {eb_tok(r[2])}")
             elif op in ("dec", "gdec"):
                 lines.append(f"{op} {r[1]} {eb_tok(r[2])} {common.hexb(r[3])}")
+            elif op == "dec_at":
+                lines.append(f"dec_at {r[1]} {eb_tok(r[2])} {r[3]} {r[4]} {r[5]} {common.hexb(r[6])}")
+            elif op == "genc":
+                lines.append(f"genc {r[1]} {eb_tok(r[2])} " + (";".join(",".join(str(int(v)) for v in rec) for rec in r[3]) or "-"))
             elif op == "enc":
                 lines.append(f"enc {r[1]} {eb_tok(r[2])} " + (";".join(",".join(str(int(v)) for v in rec) for rec in r[3]) or "-"))
             else:
@@ -335,7 +367,7 @@ class ModelRef:
         if op in ("dec_hdr", "dec_ebd"):
             tok, rest = o.rsplit(" ", 1)
             return (_pairs(tok), int(rest))
-        if op in ("enc_hdr", "enc_vlr", "enc_ebd", "enc"):
+        if op in ("enc_hdr", "enc_vlr", "enc_ebd", "enc", "genc"):
             return common.unhex(o.split(" ", 1)[1])
         if op == "dec_vlrs":
             _, body, consumed = o.split(" ")
@@ -349,7 +381,7 @@ class ModelRef:
             return o.split(" ", 1)[1].split(",")
         if op == "psize":
             return int(o.split(" ", 1)[1])
-        if op in ("dec", "gdec"):
+        if op in ("dec", "gdec", "dec_at"):
             body = o.split(" ", 1)[1]
             return [] if body == "-" else [[int(v) for v in rec.split(",")] for rec in body.split(";")]
         raise KeyError(op)
@@ -448,16 +480,43 @@ def rand_vlrs(rng, k, big=False):
         uid = lasio.rand_ascii(rng, rng.choice([0, 1, 15, 16, rng.randrange(17)]))
         if uid in ("LASF_Spec", "LASF_Projection", "laszip encoded", "copc"):
             uid = "U" + uid[1:]
+        if not big and rng.random() < 0.15:
+            # a record laspy knows by its identity: Waveform Packet Descriptor (LASF_Spec, 100..354; 26 bytes): same identity, same bytes
+            out.append(["LASF_Spec", rng.choice([100, 101, 354, rng.randrange(100, 355)]), lasio.rand_ascii(rng, rng.choice([0, 9, 32])),
+                        (bytes([rng.choice([8, 16]), rng.choice([0, 1])]) + bytes(rng.randrange(256) for _ in range(8))
+                         + rng.choice(F64_SPECIAL + [rng.getrandbits(64)]).to_bytes(8, "little") + rng.getrandbits(64).to_bytes(8, "little")).hex()])
+            continue
         n = rng.choice([0, 1, 2, 300, rng.randrange(64)]) if not big else rng.choice([0, 1, 65535, 65536, 70000])
         out.append([uid, rng.choice([0, 1, 4, 65535, rng.randrange(65536)]), lasio.rand_ascii(rng, rng.choice([0, 1, 31, 32, rng.randrange(33)])),
                     bytes(rng.randrange(256) for _ in range(n)).hex()])
     return out
 
 
+def gen_points(rng, fmt, extra, trailing, n, exact_scaled):
+    """n points (values in leaf order) for records of format fmt + the extra dimensions + trailing undocumented bytes.
+    exact_scaled: the values of scaled extra dimensions will be assigned through laspy's scaled view: keep
+    value * scale + offset exact in binary64"""
+    ebs = eb_pairs(extra) + ([(TRAIL, trailing)] if trailing else [])
+    cols = []
+    for name, kind in py_leaves(fmt, ebs):
+        vals = leaf_values(rng, kind, n, rng.randrange(64))
+        if name.startswith("e") and name[1:].isdigit():
+            d = extra[int(name[1:])]
+            if d["scaled"] and d["data_type"] != 0 and exact_scaled:
+                w = int(kind[1:])
+                lo, hi = (-(2 ** min(8 * w - 1, 40)), 2 ** min(8 * w - 1, 40) - 1) if kind[0] == "i" else (0, 2 ** min(8 * w, 40) - 1)
+                vals = [[lo, hi, 0, 1][i] if i < 4 else rng.randrange(lo, hi + 1) for i in range(n)]
+        cols.append(vals)
+    return [[c[i] for c in cols] for i in range(n)]
+
+
 PATHS = ["write", "writer", "convert", "append"]
+CALLER_BUFFERS = ["fresh", "reused", "reused", "params-object"]
+ADD_ROUTES = ["header.add_extra_dim", "header.add_extra_dims", "las.add_extra_dim", "las.add_extra_dims", "interleaved"]
+DESTS = ["bytesio", "bytesio", "path", "fileobj"]
 
 
-def make_case(rng, version, fmt, n, n_eb, laspy_side, idx, trailing=0, path="write", force_scaled=False):
+def make_case(rng, version, fmt, n, n_eb, laspy_side, idx, trailing=0, path="write", force_scaled=False, finite=False):
     minor = int(version[2])
     extra = rand_extra_dims(rng, n_eb, laspy_side)
     if force_scaled and extra:
@@ -470,25 +529,11 @@ def make_case(rng, version, fmt, n, n_eb, laspy_side, idx, trailing=0, path="wri
         d.update(scaled=3 if laspy_side else rng.choice([1, 2, 3]), flags=0, junk="",
                  scales=[lasio.f64bits(rng.choice(EXACT_SCALES)) for _ in range(cnt)],
                  offsets=[lasio.f64bits(rng.choice(EXACT_OFFSETS)) for _ in range(cnt)])
-    ebs = eb_pairs(extra) + ([(TRAIL, trailing)] if trailing else [])
-    leaves = py_leaves(fmt, ebs)
-    cols = []
-    eb_of_leaf = {}
-    for name, kind in leaves:
-        vals = leaf_values(rng, kind, n, rng.randrange(64))
-        if name.startswith("e") and name[1:].isdigit():
-            d = extra[int(name[1:])]
-            if d["scaled"] and laspy_side:
-                # through the scaled view: keep value * scale + offset exact in binary64
-                w = int(kind[1:])
-                lo, hi = (-(2 ** min(8 * w - 1, 40)), 2 ** min(8 * w - 1, 40) - 1) if kind[0] == "i" else (0, 2 ** min(8 * w, 40) - 1)
-                vals = [[lo, hi, 0, 1][i] if i < 4 else rng.randrange(lo, hi + 1) for i in range(n)]
-        cols.append(vals)
-    points = [[c[i] for c in cols] for i in range(n)]
+    points = gen_points(rng, fmt, extra, trailing, n, laspy_side)
     y = rng.choice([1, 4, 1900, 2000, 2020, 2024, 9999, rng.randrange(1, 10000)])
     leap = y % 4 == 0 and (y % 100 != 0 or y % 400 == 0)
     yday = rng.choice([1, 59, 60, 365, 366 if leap else 365, rng.randrange(1, 366)])
-    if laspy_side or trailing or rng.random() < 0.5:
+    if laspy_side or trailing or finite or rng.random() < 0.5:
         scales = [lasio.f64bits(rng.choice([1e-9, 0.001, 0.01, 0.5, 1.0, 1000.0, rng.uniform(1e-6, 10)])) for _ in range(3)]
         offsets = [lasio.f64bits(rng.choice([0.0, -1e9, 1e9, 123456.789, rng.uniform(-1e6, 1e6)])) for _ in range(3)]
     else:
@@ -527,6 +572,20 @@ def make_case(rng, version, fmt, n, n_eb, laspy_side, idx, trailing=0, path="wri
             sv, sf = rng.choice([(v, f) for v in lasio.VERSIONS for f in lasio.COMPAT[v]])
             path = f"convert:{sv}:{sf}"
         case["path"] = path
+        # what the caller does with the objects it hands to laspy (the arrays behind scales= / offsets= of ExtraBytesParams, the
+        # ExtraBytesParams object, the value arrays): fresh ones every time | one buffer re-used for every dimension and
+        # overwritten after each call | one ExtraBytesParams object whose attributes are re-bound for the next dimension;
+        # through which entry point the dimensions are added and when their values are assigned; where the file goes
+        case["caller"] = {"buffers": rng.choice(CALLER_BUFFERS), "buffer_type": rng.choice(["f8", "f8", "f8", "view", "f4", "i8", "list", "tuple"]),
+                          "add": rng.choice(ADD_ROUTES), "clobber_values": rng.random() < 0.5,
+                          "type_as": rng.choice(["str", "str", "dtype", "1str", "class"]), "multi_assign": rng.random() < 0.3}
+        case["dest"] = rng.choice(DESTS)
+    else:
+        # bytes of another producer after the last point record (padding, waveform data packets) / between the last point and the EVLRs
+        if rng.random() < 0.25:
+            case["tail"] = bytes(rng.randrange(256) for _ in range(rng.choice([1, 2, 13, 57, 300]))).hex()
+        if case["evlrs"] and rng.random() < 0.4:
+            case["gap"] = bytes(rng.randrange(256) for _ in range(rng.choice([1, 3, 30, 200]))).hex()
     return case
 
 
@@ -627,6 +686,142 @@ def _vlr_objs(lst):
     return [laspy.VLR(user_id=u, record_id=r, description=ds, record_data=bytes.fromhex(p)) for u, r, ds, p in lst]
 
 
+SCRATCH = f"/var/tmp/c02_{os.getpid()}"
+
+
+def scratch(name):
+    os.makedirs(SCRATCH, exist_ok=True)
+    return os.path.join(SCRATCH, name)
+
+
+def _cleanup():
+    shutil.rmtree(SCRATCH, ignore_errors=True)
+
+
+atexit.register(_cleanup)
+
+
+class Dest:
+    """where laspy is told to put a file: an io.BytesIO | a path | an open file object of a real file"""
+
+    def __init__(self, kind, name):
+        self.kind = kind
+        self.path = None if kind == "bytesio" else scratch(f"{name}.las")
+        self.obj = io.BytesIO() if kind == "bytesio" else (open(self.path, "w+b") if kind == "fileobj" else None)
+
+    def target(self):
+        if self.kind == "path":
+            return self.path
+        self.obj.seek(0)
+        return self.obj
+
+    def kw(self):
+        return {} if self.kind == "path" else {"closefd": False}
+
+    def preload(self, data):
+        if self.kind == "path":
+            with open(self.path, "wb") as f:
+                f.write(data)
+        else:
+            self.obj.seek(0)
+            self.obj.truncate()
+            self.obj.write(data)
+            self.obj.seek(0)
+
+    def value(self):
+        if self.kind == "bytesio":
+            return self.obj.getvalue()
+        if self.obj is not None and not self.obj.closed:
+            self.obj.flush()
+        with open(self.path, "rb") as f:
+            return f.read()
+
+    def close(self):
+        if self.obj is not None and not self.obj.closed:
+            self.obj.close()
+        if self.path is not None:
+            try:
+                os.remove(self.path)
+            except OSError:
+                pass
+
+
+def _clobber(arr):
+    """the caller goes on using an array / list it handed to laspy"""
+    if isinstance(arr, np.ndarray):
+        flat = arr.reshape(-1).view(np.uint8) if arr.flags.c_contiguous else None
+        if flat is not None and arr.flags.writeable:
+            flat[:] = 0xA5
+        elif arr.flags.writeable:
+            arr[...] = 77
+    elif isinstance(arr, list):
+        arr[:] = [77.0] * len(arr)
+
+
+class Caller:
+    """the caller's side of ExtraBytesParams: which objects carry the scales / offsets and what happens to them afterwards"""
+
+    def __init__(self, conf):
+        self.conf = dict({"buffers": "fresh", "buffer_type": "f8", "add": "header.add_extra_dim", "clobber_values": False,
+                          "type_as": "str", "multi_assign": False}, **(conf or {}))
+        self.bufs = {}
+        self.params = None
+        self.handed = []
+
+    def _obj(self, which, vals):
+        bt, reuse = self.conf["buffer_type"], self.conf["buffers"] == "reused"
+        if bt == "i8" and any(v != int(v) for v in vals):
+            bt = "f8"
+        if bt in ("list", "tuple"):
+            if not reuse:
+                return list(vals) if bt == "list" else tuple(vals)
+            buf = self.bufs.setdefault((which, len(vals)), [0.0] * len(vals))
+            buf[:] = list(vals)
+            return buf if bt == "list" else tuple(buf)
+        dt = {"f8": np.float64, "view": np.float64, "f4": np.float32, "i8": np.int64}[bt]
+        if not reuse:
+            return np.array(vals, dtype=dt)
+        if bt == "view":
+            buf = self.bufs.setdefault((which, 0), np.zeros(3, dtype=dt))[:len(vals)]
+        else:
+            buf = self.bufs.setdefault((which, len(vals), bt), np.zeros(len(vals), dtype=dt))
+        buf[:] = vals
+        return buf
+
+    def param(self, d):
+        import laspy
+        kw = {}
+        if d["scaled"]:
+            kw = dict(scales=self._obj("s", [lasio.bits_f64(b) for b in d["scales"]]), offsets=self._obj("o", [lasio.bits_f64(b) for b in d["offsets"]]))
+            self.handed += list(kw.values())
+        ts = type_str(d["data_type"], d["nbytes"])
+        # the type of the dimension as a string ("3u2") | a numpy dtype | the old "1u2" spelling of a single element | a numpy scalar class
+        ta, (kind, cnt) = self.conf.get("type_as", "str"), eb_elem(d["data_type"], d["nbytes"])
+        single = cnt == 1 and d["data_type"] != 0
+        ts = np.dtype(ts) if ta == "dtype" else ("1" + ts) if ta == "1str" and single else \
+            {**NP, "f4": np.float32, "f8": np.float64}[kind] if ta == "class" and single else ts
+        if self.conf["buffers"] == "params-object" and self.params is not None:
+            # one ExtraBytesParams object, its attributes re-bound for the next dimension
+            p = self.params
+            p.name, p.type, p.description = d["name"], np.dtype(type_str(d["data_type"], d["nbytes"])), d["description"]
+            p.scales = np.array(kw["scales"]) if kw else None
+            p.offsets = np.array(kw["offsets"]) if kw else None
+        else:
+            p = laspy.ExtraBytesParams(d["name"], ts, description=d["description"], **kw)
+            if self.conf["buffers"] == "params-object":
+                self.params = p
+        return p
+
+    def after_call(self):
+        """after laspy returned from add_extra_dim(s): the caller's buffers are used for something else"""
+        if self.conf["buffers"] == "reused":
+            for a in self.handed:
+                _clobber(a)
+            for a in self.bufs.values():
+                _clobber(a)
+        self.handed = []
+
+
 def laspy_write(case):
     """build the file through laspy's API, written the way case['path'] says; returns (bytes, what laspy computed itself:
     mins / maxs / by_return)"""
@@ -646,16 +841,11 @@ def laspy_write(case):
     h.offsets = np.array([lasio.bits_f64(b) for b in hd["offsets"]])
     h.extra_header_bytes = bytes.fromhex(hd["extra_header_bytes"])
     h.extra_vlr_bytes = bytes.fromhex(hd["extra_vlr_bytes"])
-    for d in case["extra_dims"]:
-        kw = {}
-        if d["scaled"]:
-            kw = dict(scales=np.array([lasio.bits_f64(b) for b in d["scales"]]), offsets=np.array([lasio.bits_f64(b) for b in d["offsets"]]))
-        h.add_extra_dim(laspy.ExtraBytesParams(d["name"], type_str(d["data_type"], d["nbytes"]), description=d["description"], **kw))
-    for v in _vlr_objs(case["vlrs"]):
-        h.vlrs.append(v)
-    las = laspy.LasData(h)
+    caller = Caller(case.get("caller"))
+    add = caller.conf["add"]
+    if caller.conf["buffers"] == "params-object":
+        add = add.replace("add_extra_dims", "add_extra_dim")     # one object: the dimensions are added one call after the other
     n = case["n"]
-    las.points = laspy.ScaleAwarePointRecord.zeros(n, header=h)
     ebs = case_ebs(case)
     leaves = py_leaves(case["format"], ebs)
     cols = {}
@@ -663,6 +853,17 @@ def laspy_write(case):
         cols.setdefault(name, []).append((kind, [p[j] for p in case["points"]]))
 
     def assign(las, names):
+        names = list(names)
+        if caller.conf["multi_assign"] and all(nm in names for nm in ("X", "Y", "Z", "intensity")):
+            # several dimensions in one call: record[[names]] = structured array
+            multi = ["Z", "intensity", "X", "Y"]
+            st = np.zeros(n, dtype=[(nm, "<" + cols[nm][0][0]) for nm in multi])
+            for nm in multi:
+                st[nm] = np_column(*cols[nm][0])
+            las.points[multi] = st
+            names = [nm for nm in names if nm not in multi]
+            if caller.conf["clobber_values"]:
+                _clobber(st)
         for name in names:
             parts = cols[name]
             if name.startswith("e") and name[1:].isdigit():
@@ -671,21 +872,52 @@ def laspy_write(case):
                 if d["scaled"]:
                     arrs = [np.array(v, dtype=np.float64) * lasio.bits_f64(d["scales"][i]) + lasio.bits_f64(d["offsets"][i])
                             for i, (k, v) in enumerate(parts)]
-                las[d["name"]] = arrs[0] if len(arrs) == 1 and eb_elem(*ebs[int(name[1:])])[1] == 1 else np.stack(arrs, axis=1)
+                val = arrs[0] if len(arrs) == 1 and eb_elem(*ebs[int(name[1:])])[1] == 1 else np.stack(arrs, axis=1)
+                las[d["name"]] = val
             else:
-                las[name] = np_column(*parts[0])
+                val = np_column(*parts[0])
+                las[name] = val
+            if caller.conf["clobber_values"]:
+                _clobber(val)               # the array the values came from is the caller's: it goes on using it
+
+    eb_names = [nm for nm in cols if nm.startswith("e") and nm[1:].isdigit()]
+    assigned = set()
+    if add.startswith("header."):
+        if add == "header.add_extra_dims" and case["extra_dims"]:
+            h.add_extra_dims([caller.param(d) for d in case["extra_dims"]])
+            caller.after_call()
+        else:
+            for d in case["extra_dims"]:
+                h.add_extra_dim(caller.param(d))
+                caller.after_call()
+    for v in _vlr_objs(case["vlrs"]):
+        h.vlrs.append(v)
+    las = laspy.LasData(h)
+    las.points = laspy.ScaleAwarePointRecord.zeros(n, header=h)
+    if not add.startswith("header."):
+        if add == "las.add_extra_dims" and case["extra_dims"]:
+            las.add_extra_dims([caller.param(d) for d in case["extra_dims"]])
+            caller.after_call()
+        else:
+            for i, d in enumerate(case["extra_dims"]):
+                las.add_extra_dim(caller.param(d))
+                if add == "interleaved" and n:
+                    # the values of a dimension are assigned as soon as it exists, before the caller's buffers change
+                    assign(las, [f"e{i}"])
+                    assigned.add(f"e{i}")
+                caller.after_call()
     if path[0] == "convert":
         # assigned before the conversion: the extra dimensions and every dimension the source format has with the same type;
         # after it: the dimensions only the target format has
         src = dict(py_leaves(fmt, []))
         before = [nm for nm in cols if (nm.startswith("e") and nm[1:].isdigit()) or src.get(nm) == cols[nm][0][0]]
         if n:
-            assign(las, before)
+            assign(las, [nm for nm in before if nm not in assigned])
         las = laspy.convert(las, point_format_id=case["format"], file_version=case["version"])
         if n:
             assign(las, [nm for nm in cols if nm not in before])
     elif n:
-        assign(las, list(cols))
+        assign(las, [nm for nm in cols if nm not in assigned])
     evlrs = VLRList(_vlr_objs(case["evlrs"])) if case["evlrs"] else None
     if evlrs is not None:
         las.evlrs = evlrs
@@ -694,30 +926,42 @@ def laspy_write(case):
     las.update_header()
     if int(case["version"][2]) >= 3:
         las.header.start_of_waveform_data_packet_record = hd["start_of_waveform"]
-    bio = io.BytesIO()
-    hh = las.header
-    if path[0] == "writer":
-        with laspy.open(bio, mode="w", header=las.header, closefd=False) as w:
-            for a, b in ((0, n // 3), (n // 3, n)):
-                w.write_points(las.points[a:b])
+    dest = Dest(case.get("dest", "bytesio"), f"w{case['id']}")
+    try:
+        hh = las.header
+        if path[0] == "writer":
+            with laspy.open(dest.target(), mode="w", header=las.header, **dest.kw()) as w:
+                # the header now belongs to the writer (its own copy): what the caller does to its header object afterwards
+                # is not the file's business
+                chunks = [las.points[a:b] for a, b in ((0, n // 3), (n // 3, n))]
+                if caller.conf["clobber_values"]:
+                    mine = las.header
+                    mine.file_source_id = (hd["file_source_id"] + 1) % 65536
+                    mine.system_identifier = "caller goes on"
+                    mine.uuid = uuidmod.UUID(int=7)
+                    mine.vlrs.append(laspy.VLR(user_id="later", record_id=9, record_data=b"xyz"))
+                for c in chunks:
+                    w.write_points(c)
+                if evlrs is not None:
+                    w.write_evlrs(evlrs)
+                hh = w.header
+        elif path[0] == "append":
+            k = n // 2
+            first = laspy.LasData(las.header, las.points[:k])
             if evlrs is not None:
-                w.write_evlrs(evlrs)
-            hh = w.header
-    elif path[0] == "append":
-        k = n // 2
-        first = laspy.LasData(las.header, las.points[:k])
-        if evlrs is not None:
-            first.evlrs = evlrs
-        first.write(bio)
-        bio.seek(0)
-        with laspy.open(bio, mode="a", closefd=False) as ap:
-            ap.append_points(las.points[k:])
-            hh = ap.header
-    else:
-        las.write(bio)
-    own = {"maxs": [lasio.f64bits(x) for x in hh.maxs], "mins": [lasio.f64bits(x) for x in hh.mins],
-           "by_return": [int(x) for x in hh.number_of_points_by_return]}
-    return bio.getvalue(), own
+                first.evlrs = evlrs
+            first.write(dest.target())
+            with laspy.open(dest.target(), mode="a", **dest.kw()) as ap:
+                rest = las.points[k:]
+                ap.append_points(rest)
+                hh = ap.header
+        else:
+            las.write(dest.target())
+        own = {"maxs": [lasio.f64bits(x) for x in hh.maxs], "mins": [lasio.f64bits(x) for x in hh.mins],
+               "by_return": [int(x) for x in hh.number_of_points_by_return]}
+        return dest.value(), own
+    finally:
+        dest.close()
 
 
 def laspy_present(data, case):
@@ -883,8 +1127,16 @@ def spec_decode_files(ref, files):
         trail = d["point_size"] - ps if not is_err(ps) and d["point_size"] > ps else 0
         if trail:
             ebs.append((TRAIL, trail))
-        data = files[i][d["offset_to_point_data"]:d["offset_to_point_data"] + d["point_count"] * d["point_size"]]
-        reqs += [("psize", d["point_format_id"], ebs), ("dec", d["point_format_id"], ebs, data)]
+        # record i is the point_size bytes at offset_to_point_data + i * point_size (Model/RecordPlace.v record_at); the
+        # reference gets the file up to the end of the announced records
+        end = d["offset_to_point_data"] + d["point_count"] * d["point_size"]
+        if end > len(files[i]):
+            res[i]["error"] = (f"header announces {d['point_count']} records of {d['point_size']} bytes from byte {d['offset_to_point_data']}: "
+                               f"they end at {end}, the file has {len(files[i])} bytes")
+            continue
+        data = files[i][d["offset_to_point_data"]:end]
+        reqs += [("psize", d["point_format_id"], ebs),
+                 ("dec_at", d["point_format_id"], ebs, d["offset_to_point_data"], d["point_size"], d["point_count"], files[i][:end])]
         if isinstance(ref, ModelRef):
             reqs.append(("gdec", d["point_format_id"], ebs, data))
         idx.append((i, ebs, len(data)))
@@ -994,12 +1246,13 @@ def spec_encode_files(ref, cases):
         hsize = HS[minor] + len(ehb)
         off = hsize + len(vb) + len(evb)
         n = c["n"]
+        gapb = bytes.fromhex(c.get("gap", "")) if c["evlrs"] else b""
         v = {"signature": b"LASF", "file_source_id": hd["file_source_id"], "global_encoding": hd["global_encoding"], "uuid": bytes.fromhex(hd["uuid"]),
              "version.major": 1, "version.minor": minor, "system_identifier": hd["system_identifier"].encode(),
              "generating_software": hd["generating_software"].encode(),
              "creation_yday": hd["creation"][1] if hd["creation"] else 0, "creation_year": hd["creation"][0] if hd["creation"] else 0,
              "header_size": hsize, "offset_to_point_data": off, "number_of_vlrs": len(vl), "point_format_id": c["format"], "point_size": psize,
-             "start_of_waveform": hd["start_of_waveform"], "start_of_first_evlr": off + n * psize if c["evlrs"] else 0, "number_of_evlrs": len(c["evlrs"])}
+             "start_of_waveform": hd["start_of_waveform"], "start_of_first_evlr": off + n * psize + len(gapb) if c["evlrs"] else 0, "number_of_evlrs": len(c["evlrs"])}
         for j in range(3):
             v[f"scales[{j}]"], v[f"offsets[{j}]"] = hd["scales"][j], hd["offsets"][j]
             v[f"maxs[{j}]"], v[f"mins[{j}]"] = hd["maxs"][j], hd["mins"][j]
@@ -1019,7 +1272,7 @@ def spec_encode_files(ref, cases):
             else:
                 vals.append(v[nm])
         hreqs.append(("enc_hdr", minor, vals))
-        parts.append((ci, ehb + vb + evb + pts + eb))
+        parts.append((ci, ehb + vb + evb + pts + gapb + eb + bytes.fromhex(c.get("tail", ""))))
     for (ci, tail), hb in zip(parts, ref.batch(hreqs)):
         files[ci] = {"error": f"reference header encoder refused: {hb}"} if is_err(hb) else hb + tail
     return files
@@ -1231,34 +1484,35 @@ def _finite(bits):
     return bits & 0x7FF0000000000000 != 0x7FF0000000000000
 
 
-def compare_rewrite(case, R):
+def compare_file(case, R, label="re-written file: ", exact_len=True, verbs=("read", "written back")):
     """case: what the reference encoder wrote, laspy read and wrote again; R: what the reference decoder reads in laspy's file.
     Header statistics and dates are laspy's own business on a write (C03 / C07): compared are the record layout, the
     descriptors, the VLRs and every point value."""
     if "error" in R:
-        return [("re-written file: structure", R["error"])]
+        return [(label + "structure", R["error"])]
+    rd, wr = verbs
     out = []
     ebs = case_ebs(case)
     rh = R["header"]
     exp = {"format": case["format"], "point_size": py_size(case["format"], ebs), "point_count": case["n"], "version": case["version"]}
     for k, e in exp.items():
         if rh[k] != e:
-            out.append((f"re-written file: header {k}", f"read {e!r}, written back {rh[k]!r}"))
+            out.append((label + f"header {k}", f"{rd} {e!r}, {wr} {rh[k]!r}"))
     if R["trailing"] != case.get("trailing", 0):
-        out.append(("re-written file: undocumented extra bytes", f"read {case.get('trailing', 0)} per record, written back {R['trailing']}"))
-    if rh["file_len"] != rh["expected_len"]:
-        out.append(("re-written file: file length", f"file of {rh['file_len']} bytes; header + VLRs + {rh['point_count']} records of {rh['point_size']} bytes + EVLRs end at {rh['expected_len']}"))
+        out.append((label + "undocumented extra bytes", f"{rd} {case.get('trailing', 0)} per record, {wr} {R['trailing']}"))
+    if rh["file_len"] != rh["expected_len"] if exact_len else rh["file_len"] < rh["expected_len"]:
+        out.append((label + "file length", f"file of {rh['file_len']} bytes; header + VLRs + {rh['point_count']} records of {rh['point_size']} bytes + EVLRs end at {rh['expected_len']}"))
     for k, v, cnt in R["legacy_bad"]:
-        out.append((f"re-written file: header legacy {k.split('[')[0]}", f"point format {rh['format']}: legacy field {k} = {v}, {k} = {cnt}"))
+        out.append((label + f"header legacy {k.split('[')[0]}", f"point format {rh['format']}: legacy field {k} = {v}, {k} = {cnt}"))
     for nm, a, b in (("vlr", case["vlrs"], R["vlrs"]), ("evlr", case["evlrs"], R["evlrs"])):
         if len(a) != len(b):
-            out.append((f"re-written file: {nm} count", f"read {len(a)}, written back {len(b)}"))
+            out.append((label + f"{nm} count", f"{rd} {len(a)}, {wr} {len(b)}"))
         for j, (x, y) in enumerate(zip(a, b)):
             for f_, xa, ya in zip(("user_id", "record_id", "description", "payload"), x, y):
                 if xa != ya:
-                    out.append((f"re-written file: {nm} {f_}", f"{nm} {j}: read {str(xa)[:70]!r}, written back {str(ya)[:70]!r}"))
+                    out.append((label + f"{nm} {f_}", f"{nm} {j}: read {str(xa)[:70]!r}, {wr} {str(ya)[:70]!r}"))
     if len(R["descriptors"]) != len(case["extra_dims"]):
-        out.append(("re-written file: extra-bytes descriptor count", f"read {len(case['extra_dims'])}, written back {len(R['descriptors'])}"))
+        out.append((label + "extra-bytes descriptor count", f"{rd} {len(case['extra_dims'])}, {wr} {len(R['descriptors'])}"))
     for j, (d, r) in enumerate(zip(case["extra_dims"], R["descriptors"])):
         kind, cnt = eb_elem(d["data_type"], d["nbytes"])
         sc = d["scaled"] if d["data_type"] != 0 else 0
@@ -1272,26 +1526,30 @@ def compare_rewrite(case, R):
                 e[f"offset[{i}]"] = d["offsets"][i]
         for k, ev in e.items():
             if r[k] != ev:
-                out.append((f"re-written file: extra-bytes descriptor {k}", f"dimension {j}: read {ev!r}, written back {r[k]!r}"))
+                out.append((label + f"extra-bytes descriptor {k}", f"dimension {j}: read {ev!r}, {wr} {r[k]!r}"))
         if d["data_type"] != 0 and (r["options"] >> 3) & 3 != sc:
-            out.append(("re-written file: extra-bytes descriptor options", f"dimension {j}: scale/offset bits read {sc}, written back options {r['options']}"))
+            out.append((label + "extra-bytes descriptor options", f"dimension {j}: scale/offset bits {rd} {sc}, {wr} options {r['options']}"))
     if out:
         return out
     pts = R["points"]
     if is_err(pts) or len(pts) != case["n"]:
-        return [("re-written file: point records", f"{case['n']} points read, decoder: {str(pts)[:100]}")]
+        return [(label + "point records", f"{case['n']} points {rd}, decoder: {str(pts)[:100]}")]
     leaves = py_leaves(case["format"], ebs)
     for i, (a, b) in enumerate(zip(case["points"], pts)):
         if a != b:
             for j, (x, y) in enumerate(zip(a, b)):
                 if x != y:
                     nm = leaves[j][0]
-                    out.append((f"re-written file: point field {nm if not (nm[0] == 'e' and nm[1:].isdigit()) else 'extra:' + type_str(*_eb_of(case, nm))}",
-                                f"point {i} {nm}: file read by laspy had {x}, the file laspy wrote back has {y}", i))
+                    out.append((label + f"point field {nm if not (nm[0] == 'e' and nm[1:].isdigit()) else 'extra:' + type_str(*_eb_of(case, nm))}",
+                                f"point {i} {nm}: {rd} {x}, {wr} {y}", i))
                     break
             if len(out) >= 3:
                 break
     return out
+
+
+def compare_rewrite(case, R):
+    return compare_file(case, R)
 
 
 def run_spec_writes(ref, cases, files=None):
@@ -1386,7 +1644,7 @@ def resolve_file(inp):
     import random
     rng = random.Random(inp["seed"])
     c = make_case(rng, inp["version"], inp["format"], 0, 0, False, "resolve")
-    c.update(extra_dims=inp["extra_dims"], vlrs=[], evlrs=[])
+    c.update(extra_dims=inp["extra_dims"], vlrs=[], evlrs=[], tail="", gap="")
     c["header"].update(extra_header_bytes="", extra_vlr_bytes="")
     if inp["has_vlr"] and not inp["extra_dims"]:
         # an Extra Bytes VLR without descriptors
@@ -1433,6 +1691,350 @@ def resolve_oracle(inp):
     return None
 
 
+# ---------------------------------------------------------------------------------------------------
+# sessions: a file of another producer (built by a reference encoder: padding or waveform data packets after the last point,
+# unused bytes before the EVLRs, extra bytes in header and VLR area, undocumented bytes in every record) goes through one of
+# laspy's routes that write point records into / next to existing ones; the reference decoder then reads the result
+# ---------------------------------------------------------------------------------------------------
+ROUTES = ["append", "mmap", "copy", "edit"]
+TAILS = ["none", "tail", "waveform", "evlrs", "gap", "evlrs+tail"]
+
+
+def make_session(rng, version, fmt, route, tailkind, idx):
+    minor = int(version[2])
+    n = rng.choice([0, 1, 2, 5, 9]) if route in ("append", "copy") else rng.choice([1, 2, 5, 9])
+    trailing = rng.choice([0, 0, 0, 3])
+    base = make_case(rng, version, fmt, n, rng.choice([0, 0, 1, 2]), False, f"s{idx}", trailing=trailing, finite=True,
+                     force_scaled=rng.random() < 0.3)
+    base.pop("tail", None)
+    base.pop("gap", None)
+    # (whole columns are assigned again on some routes: the stored integers of scaled extra dimensions must survive the scaled view)
+    base["points"] = gen_points(rng, fmt, base["extra_dims"], trailing, n, True)
+    hd = base["header"]
+    hd["by_return"] = [0] * len(hd["by_return"])
+    hd["maxs"] = [lasio.f64bits(rng.uniform(0, 1e6)) for _ in range(3)]
+    hd["mins"] = [lasio.f64bits(-rng.uniform(0, 1e6)) for _ in range(3)]
+    if hd["creation"] is None:
+        hd["creation"] = [2020, 1]
+    if tailkind in ("waveform",) and minor < 3:
+        tailkind = "tail"
+    if tailkind in ("evlrs", "gap", "evlrs+tail") and minor < 4:
+        tailkind = "tail"
+    rb = lambda k: bytes(rng.randrange(256) for _ in range(k)).hex()
+    if tailkind in ("none", "tail", "waveform"):
+        base["evlrs"] = []
+    elif not base["evlrs"]:
+        base["evlrs"] = rand_vlrs(rng, rng.choice([1, 2]))
+    if tailkind in ("tail", "evlrs+tail"):
+        # fewer / as many / more bytes than the records that will be written
+        base["tail"] = rb(rng.choice([1, 13, 28, 57, 200, 1000]))
+    if tailkind == "waveform":
+        # LAS 1.3+: waveform data packets stored in the file after the points ("internal", global encoding bit 1)
+        hd["global_encoding"] |= 2
+        base["tail"] = rb(60 + 16 * max(n, 1))
+        hd["start_of_waveform"] = None          # = end of the point records: filled in by session_original
+    if tailkind == "gap":
+        base["gap"] = rb(rng.choice([1, 3, 30, 200]))
+    sess = {"id": f"s{idx}", "route": route, "tailkind": tailkind, "base": base,
+            "entry": rng.choice(["open", "class", "path", "fileobj"]), "record": rng.choice(["scaleaware", "packed"])}
+    ex = base["extra_dims"]
+    if route == "append":
+        sess["chunks"] = [gen_points(rng, fmt, ex, trailing, m, True) for m in rng.choice([[1], [3], [2, 0, 1], [0], [4, 1], [7]])]
+    elif route in ("mmap", "edit"):
+        how = rng.choice(["indexed", "column", "slice"])
+        if how == "slice":
+            a, st = rng.randrange(n), rng.choice([1, 2, 3])
+            sel = list(range(a, n, st))
+            sess["slice"] = [a, n, st]
+        else:
+            sel = sorted(rng.sample(range(n), rng.randrange(1, n + 1)))
+        sess["how"], sess["sel"], sess["index_as"] = how, sel, rng.choice(["array", "list"])
+        sess["points"] = gen_points(rng, fmt, ex, trailing, len(sel), True)
+    else:
+        sess["chunk_size"] = rng.choice([1, 2, 3, 100])
+    return sess
+
+
+def make_sessions(ctx):
+    rng = ctx.rng
+    pairs = [(v, f) for v in lasio.VERSIONS for f in lasio.COMPAT[v]]
+    out = []
+    for j, (v, f) in enumerate(pairs):
+        # every (version, format): one append session, the kinds of foreign bytes in turn; one of the other routes in turn
+        out.append(make_session(rng, v, f, "append", TAILS[1 + (j + ctx.seed) % 5], len(out)))
+        out.append(make_session(rng, v, f, ROUTES[1 + (j + ctx.seed) % 3], TAILS[(j // 3 + ctx.seed) % 6], len(out)))
+    for _ in range(ctx.n(24, 800)):
+        v, f = rng.choice(pairs)
+        out.append(make_session(rng, v, f, rng.choice(ROUTES + ["append"]), rng.choice(TAILS), len(out)))
+    return out
+
+
+def session_base(sess):
+    """the case of the original file: the waveform pointer of an 'internal waveform' file is the end of its point records"""
+    base = sess["base"]
+    if base["header"]["start_of_waveform"] is None:
+        base = dict(base, header=dict(base["header"]))
+        minor = int(base["version"][2])
+        ebs = case_ebs(base)
+        vb = sum(54 + len(p) // 2 for _, _, _, p in base["vlrs"]) + ((54 + 192 * len(base["extra_dims"])) if base["extra_dims"] else 0)
+        off = HS[minor] + len(base["header"]["extra_header_bytes"]) // 2 + vb + len(base["header"]["extra_vlr_bytes"]) // 2
+        base["header"]["start_of_waveform"] = off + base["n"] * py_size(base["format"], ebs)
+    return base
+
+
+def session_expected(sess):
+    base = session_base(sess)
+    pts = [list(p) for p in base["points"]]
+    if sess["route"] == "append":
+        for ch in sess["chunks"]:
+            pts += ch
+    elif sess["route"] in ("mmap", "edit"):
+        for i, p in zip(sess["sel"], sess["points"]):
+            pts[i] = list(p)
+    return dict(base, points=pts, n=len(pts))
+
+
+def assign_points(target, case, points, sel=None):
+    """values (leaf order of the case) -> target[dimension] (sel None: whole columns) or target[dimension][sel]: through the
+    named dimensions of the file's point format, extra dimensions by position"""
+    ebs = case_ebs(case)
+    leaves = py_leaves(case["format"], ebs)
+    cols = {}
+    for j, (name, kind) in enumerate(leaves):
+        cols.setdefault(name, []).append((kind, [p[j] for p in points]))
+    extra = list(target.point_format.extra_dimensions)
+    for name, parts in cols.items():
+        if name == TRAIL_NAME or (name.startswith("e") and name[1:].isdigit()):
+            i = len(case["extra_dims"]) if name == TRAIL_NAME else int(name[1:])
+            dname = extra[i].name
+            arrs = [np_column(k, v) for k, v in parts]
+            d = case["extra_dims"][i] if name != TRAIL_NAME else None
+            if d is not None and d["scaled"] and d["data_type"] != 0:
+                sc = [lasio.bits_f64(b) if d["scaled"] & 1 else 1.0 for b in d["scales"]]
+                of = [lasio.bits_f64(b) if d["scaled"] & 2 else 0.0 for b in d["offsets"]]
+                arrs = [np.array(v, dtype=np.float64) * sc[q] + of[q] for q, (k, v) in enumerate(parts)]
+            val = arrs[0] if len(arrs) == 1 and eb_elem(*ebs[i])[1] == 1 and ebs[i][0] != TRAIL and ebs[i][0] != 0 else np.stack(arrs, axis=1)
+            if val.ndim == 2 and val.shape[1] == 1 and int(extra[i].num_elements) == 1:
+                val = val[:, 0]
+        else:
+            dname, val = name, np_column(*parts[0])
+        if sel is None:
+            target[dname] = val
+        else:
+            target[dname][sel] = val
+
+
+def session_run(sess, original):
+    """the laspy side of a session -> bytes of the resulting file"""
+    import laspy
+    from laspy.lasappender import LasAppender
+    base = session_base(sess)
+    route = sess["route"]
+    kind = {"open": "bytesio", "class": "bytesio", "path": "path", "fileobj": "fileobj"}[sess["entry"]]
+    if route == "mmap":
+        kind = "path"
+    dest = Dest(kind, sess["id"])
+    try:
+        if route == "append":
+            dest.preload(original)
+            ap = LasAppender(dest.target(), closefd=False) if sess["entry"] == "class" else laspy.open(dest.target(), mode="a", **dest.kw())
+            with ap:
+                for ch in sess["chunks"]:
+                    m = len(ch)
+                    rec = (laspy.ScaleAwarePointRecord.zeros(m, header=ap.header) if sess["record"] == "scaleaware"
+                           else laspy.PackedPointRecord.zeros(m, ap.header.point_format))
+                    if m:
+                        assign_points(rec, base, ch)
+                    ap.append_points(rec)
+            return dest.value()
+        if route == "mmap":
+            dest.preload(original)
+            with laspy.mmap(dest.path) as las:
+                _session_edit(las, sess, base)
+            return dest.value()
+        if route == "edit":
+            las = laspy.read(io.BytesIO(original))
+            _session_edit(las, sess, base)
+            las.write(dest.target())
+            return dest.value()
+        # copy: reader -> writer, chunk by chunk
+        src = Dest("path" if sess["entry"] in ("path", "fileobj") else "bytesio", sess["id"] + "src")
+        try:
+            src.preload(original)
+            with laspy.open(src.target()) as rd:
+                with laspy.open(dest.target(), mode="w", header=rd.header, **dest.kw()) as w:
+                    for pts in rd.chunk_iterator(sess["chunk_size"]):
+                        w.write_points(pts)
+                    if rd.evlrs:
+                        w.write_evlrs(rd.evlrs)
+            return dest.value()
+        finally:
+            src.close()
+    finally:
+        dest.close()
+
+
+def _session_edit(las, sess, base):
+    how, sel = sess["how"], sess["sel"]
+    if how == "column":
+        # whole columns: the file's values with the selected points replaced
+        pts = session_expected(sess)["points"]
+        assign_points(las, base, pts)
+    elif how == "slice":
+        a, b, st = sess["slice"]
+        assign_points(las, base, sess["points"], slice(a, b, st))
+    else:
+        assign_points(las, base, sess["points"], np.array(sel) if sess.get("index_as") == "array" else list(sel))
+
+
+_SESSION_OUT = {}
+
+
+def model_sessions(sessions, io_):
+    """the model of the in-place routes (Model/RecordPlace.v: append_session over Gen/GenC02.v append_start, edit_record) against
+    laspy: the records encoded by the laspy-layout encoder of the model, written where the model says, must be the bytes laspy's
+    file has from offset_to_point_data to the end of its records (append) / the whole file (memory map) -> disagreements"""
+    ref = ModelRef()
+    todo = [s for s in sessions if s["id"] in io_ and s["route"] in ("append", "mmap")]
+    reqs = []
+    for s in todo:
+        base = session_base(s)
+        pts = [p for ch in s["chunks"] for p in ch] if s["route"] == "append" else s["points"]
+        reqs.append(("genc", base["format"], case_ebs(base), pts))
+    encs = ref.batch(reqs)
+    lines, live = [], []
+    for s, e in zip(todo, encs):
+        original, result, R0 = io_[s["id"]]
+        h = R0["header"]
+        ps = h["point_size"]
+        if is_err(e) or len(e) % ps:
+            continue
+        recs = [e[i:i + ps] for i in range(0, len(e), ps)]
+        if s["route"] == "append":
+            chunks, q = [], 0
+            for ch in s["chunks"]:
+                chunks.append(b"".join(recs[q:q + len(ch)]))
+                q += len(ch)
+            lines.append(f"append {h['offset_to_point_data']} {h['point_count']} {ps} {int(h['version'][2])} {h['number_of_evlrs']} "
+                         f"{h['start_of_first_evlr']} {common.hexb(original)} " + ";".join(common.hexb(c) for c in chunks))
+        else:
+            lines.append(f"edits {h['offset_to_point_data']} {ps} {common.hexb(original)} " + ";".join(f"{i}:{common.hexb(r)}" for i, r in zip(s["sel"], recs)))
+        live.append((s, len(recs)))
+    dis = []
+    for (s, k), o in zip(live, common.run_model(lines, name="c02")):
+        original, result, R0 = io_[s["id"]]
+        h = R0["header"]
+        if not o.startswith("x"):
+            dis.append({"kind": f"session {s['route']}: model", "input": {"direction": "session", "session": s}, "model": o[:200], "impl": "a file"})
+            continue
+        m = common.unhex(o)
+        if s["route"] == "append":
+            a, b = h["offset_to_point_data"], h["offset_to_point_data"] + (h["point_count"] + k) * h["point_size"]
+            same = m[:b][a:] == result[:b][a:] and m[HS[int(h["version"][2])]:a] == result[HS[int(h["version"][2])]:a]
+            what = f"bytes {a}..{b} (the point records) and the VLR area"
+        else:
+            same, what = m == result, "the whole file"
+        if not same:
+            dis.append({"kind": f"session {s['route']}: where the records are written", "input": {"direction": "session", "session": s},
+                        "model": f"{what}: {len(m)} bytes, records at offset_to_point_data + i * record_length", "impl": f"{len(result)} bytes, different there"})
+    return dis
+
+
+def run_sessions(ref, sessions, io_=None):
+    """-> per session list of mismatches"""
+    res = [[] for _ in sessions]
+    originals = spec_encode_files(ref, [session_base(s) for s in sessions])
+    outs, idx = [], []
+    for k, (s, f) in enumerate(zip(sessions, originals)):
+        if isinstance(f, dict):
+            res[k].append(("reference encoder", f["error"]))
+            continue
+        key = (repr(s["id"]), f)
+        if key not in _SESSION_OUT:
+            try:
+                _SESSION_OUT[key] = session_run(s, f)
+            except Exception as ex:
+                _SESSION_OUT[key] = {"error": f"{common.exc_kind(ex)}: {str(ex)[:200]}"}
+        o = _SESSION_OUT[key]
+        if isinstance(o, dict):
+            res[k].append((f"session {s['route']}: laspy refused", o["error"]))
+        else:
+            outs.append(o)
+            idx.append(k)
+    dec = spec_decode_files(ref, outs + [originals[k] for k in idx])
+    for q, k in enumerate(idx):
+        if io_ is not None and "error" not in dec[len(idx) + q]:
+            io_[sessions[k]["id"]] = (originals[k], outs[q], dec[len(idx) + q])
+        res[k] += compare_session(sessions[k], originals[k], outs[q], dec[len(idx) + q], dec[q])
+        if dec[q].get("gen_differs"):
+            res[k].append(("gen-layout codec differs from the specification codec", "gdec != dec"))
+    return res
+
+
+SESSION_KEEPS = ["file_source_id", "global_encoding", "uuid", "version", "system_identifier", "scales", "offsets",
+                 "extra_header_bytes", "extra_vlr_bytes", "header_size", "offset_to_point_data", "number_of_vlrs", "number_of_evlrs"]
+
+
+def compare_session(sess, original, result, R0, R):
+    """R0 / R: what the reference decoder reads in the original / in the file after the session"""
+    route = sess["route"]
+    label = f"session {route}: "
+    if "error" in R0:
+        return [("reference decoder on the reference encoder's file", R0["error"])]
+    exp = session_expected(sess)
+    in_place = route in ("append", "mmap")
+    verbs = ("the file had / was given", "the decoder finds at offset_to_point_data + i * record_length")
+    out = compare_file(exp, R, label, exact_len=not in_place, verbs=verbs)
+    if "error" in R:
+        return out
+    if in_place:
+        # the file is still the producer's: its header block, VLR area and the bytes between them stay where and what they were
+        for k in SESSION_KEEPS:
+            if R["header"][k] != R0["header"][k]:
+                out.append((label + f"header {k}", f"original file {R0['header'][k]!r}, after the session {R['header'][k]!r}"))
+        off = R0["header"]["offset_to_point_data"]
+        if result[HS[int(exp["version"][2])]:off] != original[HS[int(exp["version"][2])]:off]:
+            out.append((label + "VLR area", "the bytes between the header block and the first point record changed"))
+    if route == "mmap":
+        n, ps = R0["header"]["point_count"], R0["header"]["point_size"]
+        off = R0["header"]["offset_to_point_data"]
+        if result[:off] != original[:off] or result[off + n * ps:] != original[off + n * ps:]:
+            out.append((label + "bytes outside the point records", "changed by editing points through the memory map"))
+    if route == "append" and R["header"]["number_of_evlrs"]:
+        end = R["header"]["offset_to_point_data"] + R["header"]["point_count"] * R["header"]["point_size"]
+        if R["header"]["start_of_first_evlr"] < end:
+            out.append((label + "header start_of_first_evlr", f"{R['header']['start_of_first_evlr']}, inside the point records that end at {end}"))
+    return out
+
+
+def session_sample(s):
+    b = s["base"]
+    return {"direction": "session", "route": s["route"], "version": b["version"], "format": b["format"], "points in the file": b["n"],
+            "after the points": s["tailkind"], "entry": s["entry"], "appended": [len(c) for c in s.get("chunks", [])],
+            "edited": s.get("sel"), "extra_dims": [type_str(d["data_type"], d["nbytes"]) for d in b["extra_dims"]],
+            "undocumented_trailing_bytes": b.get("trailing", 0)}
+
+
+def register_sessions(ctx, sessions):
+    for s in sessions:
+        b = s["base"]
+        ctx.count("session")
+        ctx.count(f"session route {s['route']}")
+        ctx.count(f"session original: {s['tailkind']}")
+        ctx.count(f"session entry {s['entry']}")
+        k = sum(len(c) for c in s.get("chunks", [])) + len(s.get("sel", []))
+        ctx.case(("session", s["route"], s["tailkind"], b["version"], b["format"], tuple(case_ebs(b)), b["header"]["uuid"], k),
+                 nontrivial=k > 0 or b["n"] > 0, sample=session_sample(s))
+        ctx.evaluations += (b["n"] + k) * len(py_leaves(b["format"], case_ebs(b)))
+        ctx.traces += 1 + b["n"] + k
+
+
+def session_finding(s, mm, tag):
+    d = {"kind": mm[0], "input": {"direction": "session", "session": s}}
+    d[tag] = mm[1]
+    return d
+
+
 _CASES = {}
 
 
@@ -1440,6 +2042,7 @@ def cases_for(ctx):
     if "w" not in _CASES:
         _CASES["w"] = make_cases(ctx, True)
         _CASES["r"] = make_cases(ctx, False)
+        _CASES["s"] = make_sessions(ctx)
     return _CASES["w"], _CASES["r"]
 
 
@@ -1474,6 +2077,14 @@ def correspond(ctx):
         "(i) is written through LasData.write, LasWriter in two chunks, laspy.convert from a random (version, format) (every target format with scaled "
         "extra dimensions) and write + appender; every (version, format) through one of the last three in turn. The decoder also checks the file against "
         "itself: legacy counts of a 1.4 header (zero for formats 6-10, zero or the count below), file length = header + VLRs + records + EVLRs. "
+        "Caller side of (i): destination BytesIO / path / file object; add_extra_dim(s) on header or LasData, all first or interleaved with the "
+        "assignment; scales / offsets handed over as fresh arrays, one re-used buffer overwritten after every call (float64, view, float32, int64, "
+        "list, tuple) or one re-bound ExtraBytesParams object; dimension types as string / dtype / '1u2' / numpy class; value arrays overwritten after "
+        "the assignment; X, Y, Z, intensity through one structured assignment; the caller's header modified after the hand-over to LasWriter. "
+        "(iv) sessions on reference-encoded originals (after the points: nothing / padding shorter, equal, longer than what is appended / internal "
+        "waveform packets / EVLRs / gap + EVLRs / EVLRs + padding; every (version, format) appended to once, plus one of mmap-edit / copy / read-edit-write "
+        "in turn, plus random ones): appender entry points x record classes x chunkings; edits indexed / sliced / whole column; the reference decoder on "
+        "the result and the model of append_session / edit_record on the same bytes. "
         "(iii) record-length resolution sweep: formats x descriptor sets x VLR present/absent x record length in {std-1, std, std+1, std+described-1, "
         "std+described, +1, +2..300}: model of read_from vs laspy, refusals included. "
         "non-trivial = at least one point, VLR or extra dimension; distinct by (direction, version, format, "
@@ -1508,6 +2119,20 @@ def correspond(ctx):
                 f_ = finding("spec-writes", c, mm, ref, "impl")
                 f_["model"] = "the values given to the specification encoder"
                 dis.append(f_)
+    # sessions on files of another producer: reference encoder -> laspy appends / edits / copies -> reference decoder
+    S = _CASES["s"]
+    register_sessions(ctx, S)
+    io_ = {}
+    for s_, mms in zip(S, run_sessions(ref, S, io_)):
+        seen = set()
+        for mm in mms:
+            if mm[0] not in seen:
+                seen.add(mm[0])
+                f_ = session_finding(s_, mm, "impl")
+                f_["model"] = "the original file's values, then the values assigned to the appended / edited points, each record at offset_to_point_data + i * record_length"
+                dis.append(f_)
+    dis += model_sessions(S, io_)
+    ctx.traces += len(io_)
     # which records a file has: the model of LasHeader.read_from (Gen/GenC02.v resolve_record over laspy's tables) against laspy
     RI = _CASES.setdefault("resolve", resolve_inputs(ctx))
     outs = common.run_model([f"resolve {i['format']} {eb_tok(eb_pairs(i['extra_dims']))} {'T' if i['has_vlr'] else 'F'} {i['point_size']}" for i in RI], name="c02")
@@ -1560,6 +2185,13 @@ def search(ctx, seeds):
     res, files = run_spec_writes(ref, Rc)
     for c, mms in zip(Rc, res):
         add("spec-writes", c, mms)
+    # sessions: the ones named by the correspondence first
+    SS = [s_["input"]["session"] for s_ in seeds if s_["input"].get("direction") == "session"] + _CASES["s"]
+    for s_, mms in zip(SS, run_sessions(ref, SS)):
+        for mm in mms:
+            if mm[0] not in seen:
+                seen.add(mm[0])
+                failing.append(session_finding(s_, mm, "observed"))
     # record-length resolution: the inputs named by the correspondence, then the whole sweep
     RI = _CASES.setdefault("resolve", resolve_inputs(ctx))
     for inp in [s_["input"] for s_ in seeds if isinstance(s_.get("input"), dict) and s_["input"].get("direction") == "resolve"] + RI:
@@ -1575,7 +2207,7 @@ def search(ctx, seeds):
         diff = [c["id"] for c, a, b in zip(Rc, mf, files) if a != b]
         if diff:
             ctx.notes.append(f"the extracted encoder and the python transcription built different files for cases {diff[:10]}")
-    return failing[:8]
+    return failing[:10]
 
 
 def replay(ctx, data):
@@ -1584,6 +2216,13 @@ def replay(ctx, data):
         obs = resolve_oracle(inp)
         print(f"REPRODUCED: resolve: {obs}" if obs else "not reproduced")
         return 1 if obs else 0
+    if isinstance(inp, dict) and inp.get("direction") == "session":
+        mms = run_sessions(PyRef(), [inp["session"]])[0]
+        for mm in mms:
+            print(f"REPRODUCED: {mm[0]}: {mm[1]}")
+        if not mms:
+            print("not reproduced")
+        return 1 if mms else 0
     if not isinstance(inp, dict) or "case" not in inp:
         print("nothing to replay")
         return 0
